@@ -148,17 +148,13 @@ Fixpoint hex_digits (acc : Z) (n : nat) (s : str) : Z * nat * str :=
 (* strtoull(s, &end, 16) / strtoul on LP64: leading white space, optional sign, optional 0x,
    saturation to ULLONG_MAX on overflow (all digits are still consumed), negation modulo 2^64;
    no digits: value 0 and end = s *)
+Definition is_hex (c : Z) : bool := match hexval c with Some _ => true | None => false end.
 Definition strtoull16 (s : str) : Z * str :=
   let s1 := skip_ws s in
-  let '(neg, s2) := match s1 with
-                    | 45 :: r => (true, r)
-                    | 43 :: r => (false, r)
-                    | _ => (false, s1)
-                    end in
+  let neg := match s1 with c :: _ => c =? 45 | [] => false end in
+  let s2 := match s1 with c :: r => if (c =? 45) || (c =? 43) then r else s1 | [] => s1 end in
   let s3 := match s2 with
-            | 48 :: x :: h :: r =>
-                if ((x =? 120) || (x =? 88)) && (match hexval h with Some _ => true | None => false end)
-                then h :: r else s2
+            | z :: x :: h :: r => if (z =? 48) && ((x =? 120) || (x =? 88)) && is_hex h then h :: r else s2
             | _ => s2
             end in
   let '(v, n, rest) := hex_digits 0 0 s3 in
@@ -238,16 +234,18 @@ Definition save_sym (tab : symtab) (path bid : str) : option str :=
 Definition parse_sym_line (l : str) : option (Z * Z * Z * str) :=
   let '(addr, r) := strtoull16 l in
   match r with
-  | 32 :: ty :: r2 =>
-      if isdigit ty then
+  | sp :: ty :: r2 =>
+      if negb (sp =? 32) then None
+      else if isdigit ty then
         let '(sz, r3) := strtoull16 (ty :: r2) in
         match r3 with
-        | 32 :: ty2 :: 32 :: nm => Some (addr, sz mod W32, ty2, cut_at 9 nm)
+        | sp2 :: ty2 :: sp3 :: nm =>
+            if (sp2 =? 32) && (sp3 =? 32) then Some (addr, sz mod W32, ty2, cut_at 9 nm) else None
         | _ => None
         end
       else
         match r2 with
-        | 32 :: nm => Some (addr, 0, ty, cut_at 9 nm)
+        | sp2 :: nm => if sp2 =? 32 then Some (addr, 0, ty, cut_at 9 nm) else None
         | _ => None
         end
   | _ => None
@@ -275,10 +273,11 @@ Definition fix_size (last : sym) (addr : Z) : sym :=
   if s_size last =? 0 then mkSym (s_addr last) ((addr - s_addr last) mod W32) (s_type last) (s_name last)
   else last.
 
+Definition is_comment (l : str) : bool := match l with c :: _ => c =? 35 | [] => false end.
+
 Definition ld_line (dem : str -> str) (st : ldst) (l : str) : ldst :=
-  match l with
-  | 35 :: _ => st                                   (* '#' comment / header *)
-  | _ =>
+  if is_comment l then st                           (* '#' comment / header *)
+  else
     match parse_sym_line l with
     | None => st
     | Some (addr, size, ty, nm) =>
@@ -300,8 +299,7 @@ Definition ld_line (dem : str -> str) (st : ldst) (l : str) : ldst :=
           | last :: r => mkLd (s :: fix_size last addr :: r) addr ty
           | [] => mkLd [s] addr ty
           end
-    end
-  end.
+    end.
 
 (* qsort(addrsort): modelled as a stable insertion sort on the generated comparator *)
 Fixpoint insert_sym (x : sym) (l : symtab) : symtab :=
@@ -329,12 +327,12 @@ Definition dem_plain (n : str) : str := n.
 (* check_symbol_file: header lines before the first non-'#' line *)
 Fixpoint sym_header (ls : list str) (path bid : option str) : option str * option str :=
   match ls with
-  | (35 :: r) :: more =>
-      let l := 35 :: r in
+  | l :: more =>
+      if negb (is_comment l) then (path, bid) else
       let path' := if prefix s_pathname l then Some (skipn 13 l) else path in
       let bid' := if prefix s_buildid l then Some (firstn 40 (skipn 12 l)) else bid in
       sym_header more path' bid'
-  | _ => (path, bid)
+  | [] => (path, bid)
   end.
 
 (* make_new_symbol_filename: "<base>-<4 chars of build-id>.sym" or "<base>-<csum %04x>.sym" *)
@@ -804,6 +802,11 @@ Definition sym_file_ok (s : sym) : bool :=
 Fixpoint no_adjacent_dup (tab : symtab) : bool :=
   match tab with
   | a :: ((b :: _) as r) => negb ((s_addr a =? s_addr b) && (s_type a =? s_type b)) && no_adjacent_dup r
+  | _ => true
+  end.
+Fixpoint addr_sorted (tab : symtab) : bool :=
+  match tab with
+  | a :: ((b :: _) as r) => (s_addr a <=? s_addr b) && addr_sorted r
   | _ => true
   end.
 Definition tab_file_ok (tab : symtab) : bool := forallb sym_file_ok tab && no_adjacent_dup tab.
